@@ -147,7 +147,8 @@ func (c CounterStyle) renderValue(counterValue int, counter *CounterStyleDescrip
 	// Step 2
 	counterRanges := counter.Range.Ranges
 	if counter.Range.Auto || counter.Range.IsNone() {
-		minRange, maxRange := math.MinInt32, math.MaxInt32
+		// infinite bounds (a value out of the range of decimal would fall back to decimal forever)
+		minRange, maxRange := math.MinInt, math.MaxInt
 		if system == "alphabetic" || system == "symbolic" {
 			minRange = 1
 		} else if system == "additive" {
